@@ -145,6 +145,28 @@ func VC35_Deep() {
 	g.check(0)
 }
 
+// 4-node diamond: s -> {1,2} -> 3 with cross edges 1 <-> 2, optional direct edge s -> 3 and optional back edge
+// 3 -> s; all weights symbolic. Two competing two-hop routes, a possible three-hop route (s,1,2,3 / s,2,1,3) that
+// beats both, and a tie on every comparison are all inside the domain.
+func VC35_Diamond() {
+	g := c35New(4)
+	g.add(0, 1, c35Weight())
+	g.add(0, 2, c35Weight())
+	g.add(1, 3, c35Weight())
+	g.add(2, 3, c35Weight())
+	if vParam("cross") == 1 {
+		g.add(1, 2, c35Weight())
+		g.add(2, 1, c35Weight())
+	}
+	if ndBool() {
+		g.add(0, 3, c35Weight())
+	}
+	if ndBool() {
+		g.add(3, 0, c35Weight())
+	}
+	g.check(vParam("src"))
+}
+
 func VC35_Twin() {
 	g := c35New(2)
 	g.add(0, 1, c35Weight())
